@@ -88,7 +88,7 @@ func (p *c10Pair) integrate(t0, t1 time.Time, val func(o c10Obs) *big.Float, val
 }
 
 func runC10(c *vk.Ctx) {
-	c.R.Rule = "cases = histories with a balancer, a stableswap and a concentrated pool, 40..120 real blocks of 1 ms .. 3 days (idle blocks, several price moves per block, joins/exits, the concentrated pool emptied and refilled to provoke spot-price errors), keep period 2h..48h with pruning epochs, then 200..500 queries per history: ArithmeticTwap / GeometricTwap / ...ToNow for both quote directions with start/end on, between, just before and after record times. The monitor reads the end-of-block spot prices itself after every block and compares every answer with the time-weighted mean over canonical milliseconds (arithmetic: exact after the final truncation; geometric: within half a unit of the last kept significant figure), checks min/max bounds, reciprocity of the geometric directions, the error flag on intervals in which an errored price was in force, and that answers inside the keep window are identical before and after pruning. distinct_nontrivial counts distinct (pool kind, twap kind, #records in force bucket, starts on record?, ends now?, touches error?, after pruning?) tuples."
+	c.R.Rule = "cases = histories with a balancer, a stableswap and a concentrated pool, 40..120 real blocks of 1 ms .. 3 days (idle blocks, several price moves per block, joins/exits, the concentrated pool emptied and refilled to provoke spot-price errors), keep period 2h..48h with pruning epochs, then 200..500 queries per history: ArithmeticTwap / GeometricTwap / ...ToNow for both quote directions with start/end on, between, just before and after record times, plus degenerate [t, t] point queries. The monitor reads the end-of-block spot prices itself after every block and compares every answer with the time-weighted mean over canonical milliseconds (arithmetic: exact after the final truncation; geometric: within half a unit of the last kept significant figure), checks min/max bounds, reciprocity of the geometric directions, the error flag on intervals in which an errored price was in force, and that answers inside the keep window are identical before and after pruning. distinct_nontrivial counts distinct (pool kind, twap kind, #records in force bucket, starts on record?, ends now?, touches error?, after pruning?) tuples."
 	nHist := c.N(120, 2880)
 	c.Cases("history", nHist, func(i int, r *vk.Rng) {
 		ch := chain.New(chain.Options{Denoms: []string{"aaa", "bbb", "bbbb", "ccc"}, NumAccounts: 6, Epochs: map[string]time.Duration{"day": 6 * time.Hour, "week": 1000 * time.Hour}})
@@ -352,6 +352,45 @@ func runC10(c *vk.Ctx) {
 			if t0.Before(floor) {
 				t0 = floor
 				onRec = true
+			}
+			if r.Intn(8) == 0 && !t0.After(now) {
+				// degenerate interval [t, t]: the answer is the price in force at t, flagged if that price is an error
+				geo, quote0 := r.Bool(), r.Bool()
+				c.Eval(1)
+				val, errFlag, failed := c10Query(ch, p, geo, quote0, t0, t0, false)
+				sig := map[string]any{"pool": kinds[p.pool], "geometric": geo, "to_now": false, "point": true}
+				desc := fmt.Sprintf("pool %d (%s) %s/%s quote=%s geo=%v point query at %s", p.pool, kinds[p.pool], p.a0, p.a1, map[bool]string{true: p.a0, false: p.a1}[quote0], geo, t0.Format(time.RFC3339Nano))
+				if failed {
+					c.Violate("C10.query_failed", sig, "%s failed although the time lies inside the retention window", desc)
+					return
+				}
+				var cur *c10Obs
+				for k := range p.obs {
+					if !p.obs[k].t.After(t0) {
+						cur = &p.obs[k]
+					}
+				}
+				if cur == nil {
+					continue
+				}
+				if cur.err {
+					if !errFlag {
+						c.Violate("C10.error_flag_missing", sig, "%s: a spot-price error is in force at that time but the answer %s carries no error", desc, val)
+						return
+					}
+					c.Class("%s|point|touches-error", kinds[p.pool])
+					continue
+				}
+				want := cur.sp
+				if !quote0 {
+					want = cur.sp1
+				}
+				if d := new(big.Int).Sub(val.BigInt(), want); d.Abs(d).Cmp(big.NewInt(1)) > 0 {
+					c.Violate("C10.point_value", sig, "%s = %s, the recorded price in force is %s", desc, val, sdkmath.LegacyNewDecFromBigIntWithPrec(want, 18))
+					return
+				}
+				c.Class("%s|point|onRec%v", kinds[p.pool], onRec)
+				continue
 			}
 			if !t1.After(t0) || t1.After(now) || ms(t1) == ms(t0) {
 				continue
